@@ -38,6 +38,39 @@ def frame_decoder_memo(ctx, rule, its=None):
                   "bytes are consumed (src.advance) on the %s path without resetting the `expected` bytes-needed memo: the stale "
                   "minimum is applied to the next frame, which then stalls or is reported truncated" % "/".join(vt), "", None, p.describe())
     ctx.floor(rule, "consuming iterations of FrameDecoder::decode", n, 2)
+    # the memo is a threshold: with `expected = Some(min)` decoding is retried exactly when remaining() >= min
+    is_rem = lambda v: v[0] == "call" and pa.short(v[1]) == "remaining"
+    n_skip = n_try = n_set = 0
+    for p in its:
+        if "Some" not in [t[2] for t in p.tests if t[3][0] == "discr" and pa.vfmt(t[3]).endswith(".expected)")]:
+            continue
+        ops = []
+        for t in p.tests:
+            nf = expr.orient(expr.cmp_nf(t[3], t[2]), is_rem)
+            if nf and "expected" in pa.vfmt(nf[2]):
+                ops.append(nf[1])
+        tried = p.has_call(FR + "Frame::decode")
+        if tried:
+            n_try += 1
+            want = [">="]
+        else:
+            n_skip += 1
+            want = ["<"]
+        ctx.check(ops == want, rule, fd.key, "memo threshold: %s" % ("decode retried when remaining() >= min" if tried else "decode postponed only while remaining() < min"),
+                  "with a remembered minimum the reader %s under the condition remaining() %s min (expected %s): a frame whose last byte has just arrived "
+                  "is left undecoded until more bytes come - which for the last frame before a pause never happens" % ("retries" if tried else "postpones", ops, want),
+                  "", None, p.describe())
+    for p in its:
+        vt = [lab for _, lab, _ in p.variant_tests(FR + "Frame::decode")]
+        if "Incomplete" in vt:
+            n_set += 1
+            st = [e for e in p.stores() if "expected" in pa.vfmt(e[4])]
+            ok = bool(st) and st[-1][3][0] == "agg" and st[-1][3][2] == "Some" and "<Incomplete>.0" in pa.vfmt(st[-1][3][3][0]) and st[-1][3][3][0][0] == "proj"
+            ctx.check(ok, rule, fd.key, "Incomplete(min) remembered as exactly that minimum",
+                      "the Incomplete path stores %s" % (pa.vfmt(st[-1][3])[:100] if st else "nothing"), "", None, p.describe())
+    ctx.floor(rule, "memo-guarded postponing paths of FrameDecoder::decode", n_skip, 1)
+    ctx.floor(rule, "memo-guarded decoding paths of FrameDecoder::decode", n_try, 1)
+    ctx.floor(rule, "Incomplete paths of FrameDecoder::decode", n_set, 1)
 
 
 def header_payload_cursor(ctx, rule, key_prefix, hdr):
